@@ -207,6 +207,7 @@ type c12Rendering struct {
 	forms     []c12Form
 	values    []int // value kind per key (maps)
 	nestedKey int   // for value kind "nested map": index of the outer key it repeats
+	marked    []bool // maps only: key i carries a marker ("k<i>") in front of its encoding
 	log       []ev.Event
 	doc       []byte
 	keyStart  []int
@@ -279,6 +280,9 @@ func c12Render(rd *c12Rendering) {
 		}
 		for i, f := range rd.forms {
 			rd.keyStart = append(rd.keyStart, len(log))
+			if isMap && i < len(rd.marked) && rd.marked[i] {
+				log = append(log, ev.Event{K: ev.MARK, B: []byte(fmt.Sprintf("k%d", i))})
+			}
 			log = append(log, f.Events...)
 			if isMap {
 				log = append(log, c12ValueEvents(rd.values[i], rd.forms[rd.nestedKey])...)
@@ -316,6 +320,10 @@ func c12Render(rd *c12Rendering) {
 	}
 	for i, f := range rd.forms {
 		rd.keyStart = append(rd.keyStart, n)
+		if isMap && i < len(rd.marked) && rd.marked[i] {
+			doc = append(doc, 0x7f, 0xf0, 0x02, 'k', byte('0'+i))
+			n++
+		}
 		doc = append(doc, f.CBE...)
 		n += f.NEvents
 		if isMap {
@@ -514,6 +522,7 @@ func (rn *c12Runner) fail(sig string, keys []c12Key, rd *c12Rendering, rej int, 
 	}
 	d["keys"] = ks
 	d["encodings"] = fs
+	d["marked_keys"] = rd.marked
 	if rd.cbe {
 		d["cbe"] = hexs(rd.doc)
 	} else {
@@ -644,6 +653,18 @@ func runC12(c *fw.Ctx, idx int) {
 		return v
 	}
 
+	randomMarks := func(n int) []bool {
+		m := make([]bool, n)
+		if r.Intn(3) != 0 {
+			return m
+		}
+		for i := range m {
+			m[i] = r.Intn(2) == 0
+		}
+		rn.inc("renderings.with_marked_keys")
+		return m
+	}
+
 	if idx < c12Directed() {
 		p := c12Pairs[idx/2]
 		rn.inc("directed." + p.Note)
@@ -677,7 +698,7 @@ func runC12(c *fw.Ctx, idx int) {
 					} else if r.Intn(3) == 0 {
 						container = 1 + r.Intn(2)
 					}
-					rd := &c12Rendering{container: container, cbe: cbe, forms: forms, values: randomValues(len(keys)), nestedKey: r.Intn(len(keys))}
+					rd := &c12Rendering{container: container, cbe: cbe, forms: forms, values: randomValues(len(keys)), nestedKey: r.Intn(len(keys)), marked: randomMarks(len(keys))}
 					if x.Name != y.Name {
 						c.Distinct(c12Desc(keys, rd))
 					}
@@ -736,7 +757,7 @@ func runC12(c *fw.Ctx, idx int) {
 			fs := c12Forms(k, cbe, r)
 			forms[i] = fs[r.Intn(len(fs))]
 		}
-		rd := &c12Rendering{container: r.Intn(c12NumContainers), cbe: cbe, forms: forms, values: randomValues(len(keys)), nestedKey: r.Intn(len(keys))}
+		rd := &c12Rendering{container: r.Intn(c12NumContainers), cbe: cbe, forms: forms, values: randomValues(len(keys)), nestedKey: r.Intn(len(keys)), marked: randomMarks(len(keys))}
 		c.Distinct(c12Desc(keys, rd))
 		rn.drive(keys, rd)
 	}
